@@ -6,6 +6,7 @@ with the regenerated table `Earverif.Gen.C19`.
 -/
 import Earverif.Model.Conversion
 import Earverif.Gen.C19_Tables
+import Earverif.Proofs.C19Real
 
 namespace Earverif.Conv
 
@@ -182,5 +183,210 @@ theorem block_conversion_touches_only (P : Params α) (b b' : Block α L R) :
         · simp at h; subst h; simp [Block.lock]
 
 end block
+
+/-! ## Over ℝ: the warps are mutually inverse
+
+The analytic theorems are proved in `Proofs/C19Real.lean` (same namespace) for an arbitrary sector / arbitrary
+elevation constants:
+`az_warp_left_inv`, `az_warp_right_inv`, `el_warp_inv_low`, `el_warp_inv_high`, `el_warp_inv_cart`,
+`mapAzToLinear_left/right`, `mapLinearToAz_zero/one` (warp ends), `polar_range_partial`,
+`polar_cart_polar_in_sector_partial`, `cart_polar_cart_in_sector_partial`, and the azimuths of the eight
+square points (`at2_*`).  Below they are instantiated with the regenerated table. -/
+
+section real
+open Real
+
+/-- The model over ℝ with the regenerated table. -/
+noncomputable def RP (fuel : Nat) : Params ℝ := Params.ofTable mapping elTop elTopTilde fuel
+
+theorem RP_consts (n : Nat) :
+    (RP n).elTop = 30 ∧ (RP n).elTopTilde = 45 ∧ (RP n).fuel = n ∧
+    ∀ r ∈ (RP n).rows, -180 ≤ r.az ∧ r.az ≤ 180 := by
+  refine ⟨by simp [RP, Params.ofTable, elTop, k, Scalar.ofRat],
+          by simp [RP, Params.ofTable, elTopTilde, k, Scalar.ofRat], rfl, ?_⟩
+  intro r hr
+  simp [RP, Params.ofTable, mapping, k, Scalar.ofRat] at hr
+  rcases hr with rfl | rfl | rfl | rfl | rfl <;> norm_num
+
+/-- **polar_range** (partial) for the regenerated table: whatever `point_cart_to_polar` returns has azimuth
+in `[-180, 180)` and `|elevation| ≤ 90`; the distance is `≥ 0` on the two on-axis branches and in the high
+elevation regime, and in the low regime provided the gains of the point in the sector found sum to `≥ 0`.
+Missing for the full `polar_range`: that the sector found by the `atan2` lookup always has non-negative gains
+(sector geometry of `_find_cart_sector`; exercised by the correspondence and the search). -/
+theorem polar_range_table_partial (n : Nat) (hn : 1 ≤ n) (x y z az el d : ℝ) (i : Option Nat)
+    (h : pointCartToPolar (RP n) x y z = some ((az, el, d), i)) :
+    (-180 ≤ az ∧ az < 180) ∧ |el| ≤ 90 ∧
+    ((∀ s, findCartSector (RP n) (cartAz x y) = some s → 0 ≤ (gains s x y).1 + (gains s x y).2) → 0 ≤ d) := by
+  obtain ⟨h1, h2, h3, h4⟩ := RP_consts n
+  exact polar_range_partial (RP n) (by rw [h3]; exact hn) h4 (by rw [h1]; norm_num) (by rw [h1]; norm_num)
+    (by rw [h2]; norm_num) (by rw [h2]; norm_num) x y z az el d i h
+
+/-- Elevation warp round trip (both regimes) for the regenerated constants `el_top = 30`, `el_top_tilde = 45`. -/
+theorem el_warp_inv_table (n : Nat) (el d : ℝ) (hd : 0 < d) (hel : |el| < 90) :
+    elToPolar (RP n) (elToCart (RP n) el d).1 (elToCart (RP n) el d).2 = (el, d) := by
+  obtain ⟨h1, h2, -, -⟩ := RP_consts n
+  exact el_warp_inv (RP n) (by rw [h1]; norm_num) (by rw [h1]; norm_num)
+    (by rw [h2]; norm_num) (by rw [h2]; norm_num) el d hd hel
+
+/-- **corners_exact** (elevation part, regenerated constants): elevations 0 / ±30 map exactly to `z = 0 / ±d`
+with `r_xy = d` (`tan 45° = 1`), and back. -/
+theorem corners_exact_el (n : Nat) (d : ℝ) (hd : 0 < d) :
+    elToCart (RP n) 0 d = (0, d) ∧ elToCart (RP n) 30 d = (d, d) ∧ elToCart (RP n) (-30) d = (-d, d) ∧
+    elToPolar (RP n) 0 d = (0, d) ∧ elToPolar (RP n) d d = (30, d) ∧ elToPolar (RP n) (-d) d = (-30, d) := by
+  obtain ⟨h1, h2, -, -⟩ := RP_consts n
+  have e45 : (45 : ℝ) * (π / 180) = π / 4 := by ring
+  have hdd : d / d = 1 := div_self hd.ne'
+  have hndd : -d / d = -1 := by rw [neg_div, hdd]
+  have a45 : π / 4 * (180 / π) = 45 := by field_simp; ring
+  refine ⟨?_, ?_, ?_, ?_, ?_, ?_⟩
+  · rw [elToCart_real, h1, h2]; norm_num
+  · rw [elToCart_real, h1, h2]; norm_num [e45]
+  · rw [elToCart_real, h1, h2]; norm_num [e45]
+  · rw [elToPolar_real, h1, h2]; norm_num
+  · rw [elToPolar_real, h1, h2, hdd, arctan_one, a45]; norm_num
+  · rw [elToPolar_real, h1, h2, hndd, arctan_neg, arctan_one, neg_mul, a45]; norm_num
+
+
+/-- **corners_exact** (azimuth part, any sector of half-width < 90°): the azimuth warp maps the sector's ends
+exactly onto the ends of the linear coordinate (`p = 0` at the left row, `p = 1` at the right row — the point
+`r_xy * (left_pos + (right_pos - left_pos) * p)` is then exactly `r_xy * left_pos` / `r_xy * right_pos`), and
+back. Together with `table_is_reference` (rows = reference directions with their square points) and
+`corners_exact_el` this is the exactness of the reference directions at the level of table + warp formulas. -/
+theorem corners_exact_az (l r : ℝ) (hr0 : r - (l + r) / 2 ≠ 0) (hr : |r - (l + r) / 2| < 90) :
+    mapAzToLinear l r l = 0 ∧ mapAzToLinear l r r = 1 ∧ mapLinearToAz l r 0 = l ∧ mapLinearToAz l r 1 = r :=
+  ⟨mapAzToLinear_left l r hr0 hr, mapAzToLinear_right l r hr0 hr, mapLinearToAz_zero l r hr,
+   mapLinearToAz_one l r hr⟩
+
+/-- `octAz` is the azimuth the model computes (`cartAz`, i.e. `-degrees(atan2(x, y))`) for the eight square
+points: ties the rational table check `sector_boundaries_match` to `_find_cart_sector`'s sector ends. -/
+theorem cartAz_octant :
+    cartAz (0:ℝ) 1 = 0 ∧ cartAz (1:ℝ) 1 = -45 ∧ cartAz (1:ℝ) 0 = -90 ∧ cartAz (1:ℝ) (-1) = -135 ∧
+    cartAz (0:ℝ) (-1) = -180 ∧ cartAz (-1:ℝ) (-1) = 135 ∧ cartAz (-1:ℝ) 0 = 90 ∧ cartAz (-1:ℝ) 1 = 45 := by
+  have hp : π ≠ 0 := pi_ne_zero
+  refine ⟨?_, ?_, ?_, ?_, ?_, ?_, ?_, ?_⟩ <;> rw [cartAz_real]
+  · rw [at2_zero_one]; simp
+  · rw [at2_one_one]; field_simp; ring
+  · rw [at2_one_zero]; field_simp; ring
+  · rw [at2_one_neg_one]; field_simp; ring
+  · rw [at2_zero_neg_one]; field_simp
+  · rw [at2_neg_one_neg_one]; field_simp; ring
+  · rw [at2_neg_one_zero]; field_simp; ring
+  · rw [at2_neg_one_one]; field_simp; ring
+
+/-! ### Evaluating the loops and the sector lookup on the table -/
+
+theorem downGe_id (x y : ℝ) (n : Nat) (h : y < x + 360) : downGe x n y = y := by
+  cases n with
+  | zero => rfl
+  | succ n => rw [downGe_succ, if_neg (by linarith)]
+
+theorem upLt_id (x y : ℝ) (n : Nat) (h : x ≤ y) : upLt x n y = y := by
+  cases n with
+  | zero => rfl
+  | succ n => rw [upLt_succ, if_neg (by linarith)]
+
+theorem downGt_id (x y : ℝ) (n : Nat) (h : y ≤ x + 360) : downGt x n y = y := by
+  cases n with
+  | zero => rfl
+  | succ n =>
+    have : downGt x (n + 1) y = if x < y - 360 then downGt x n (y - 360) else y := by
+      simp [downGt, k, Scalar.ofRat]
+    rw [this, if_neg (by linarith)]
+
+theorem relativeAngle_of_mem (n : Nat) (x y : ℝ) (h1 : x ≤ y) (h2 : y < x + 360) :
+    relativeAngle n x y = y := by
+  unfold relativeAngle
+  rw [downGe_id x y n h2, upLt_id x y n h1]
+
+/-- `inside_angle_range(x, start, end)` when no normalisation step is needed. -/
+theorem insideAngleRange_plain (n : Nat) (x start stop : ℝ) (h1 : start ≤ stop) (h2 : stop ≤ start + 360)
+    (h3 : start ≤ x) (h4 : x < start + 360) :
+    insideAngleRange n x start stop (k 0) = decide (x ≤ stop) := by
+  unfold insideAngleRange
+  simp only [k, Scalar.ofRat, Rat.cast_zero, sub_zero, add_zero]
+  rw [downGt_id start stop n h2, upLt_id start stop n h1, downGe_id start x n h4, upLt_id start x n h3]
+
+/-- **corners_exact** on the full model for one reference direction (through `_find_sector`, `relative_angle`,
+both warps, any fuel): U-030 (az = -30, el = 30) at distance `d` maps exactly to the cube corner `(d, d, d)`,
+using sector 0.  The other reference directions follow the same pattern (not spelled out; they are covered at the
+level of table + warp formulas by `table_is_reference`, `corners_exact_az`, `corners_exact_el`). -/
+theorem corners_exact_point_m30_u30 (n : Nat) (d : ℝ) (hd : 0 < d) :
+    pointPolarToCart (RP n) (-30) 30 d = some ((d, d, d), 0) := by
+  rw [pointPolarToCart_eq]
+  have hs : findSector (RP n) (-30) = some ⟨0, ⟨k 0, k 0, k 1, k 0⟩, ⟨k (-30), k 1, k 1, k 0⟩⟩ := by
+    unfold findSector
+    have : sectors (RP n) = ⟨0, ⟨k 0, k 0, k 1, k 0⟩, ⟨k (-30), k 1, k 1, k 0⟩⟩ :: (sectors (RP n)).tail := by
+      rfl
+    rw [this, List.find?_cons_of_pos]
+    have : (RP n).fuel = n := rfl
+    rw [this]
+    simp only [k, Scalar.ofRat]
+    rw [show (((-30 : ℚ)) : ℝ) = -30 by norm_num, show (((0 : ℚ)) : ℝ) = 0 by norm_num]
+    have := insideAngleRange_plain n (-30) (-30) 0 (by norm_num) (by norm_num) (by norm_num) (by norm_num)
+    simp only [k, Scalar.ofRat, Rat.cast_zero] at this
+    rw [this]; simp
+  rw [hs]
+  simp only [Option.map_some, polarToCartIn]
+  have hel := (corners_exact_el n d hd).2.1
+  rw [hel]
+  have hp : azToP (RP n) ⟨0, ⟨k 0, k 0, k 1, k 0⟩, ⟨k (-30), k 1, k 1, k 0⟩⟩ (-30) = 1 := by
+    dsimp only [azToP]
+    have : (RP n).fuel = n := rfl
+    rw [this]
+    simp only [k, Scalar.ofRat]
+    rw [show (((-30 : ℚ)) : ℝ) = -30 by norm_num, show (((0 : ℚ)) : ℝ) = 0 by norm_num]
+    rw [relativeAngle_of_mem n (-30) (-30) (by norm_num) (by norm_num),
+        relativeAngle_of_mem n (-30) 0 (by norm_num) (by norm_num)]
+    exact mapAzToLinear_right 0 (-30) (by norm_num) (by norm_num [abs_lt])
+  rw [hp]
+  simp [k, Scalar.ofRat]
+
+
+/-! ### Non-vacuity: concrete inputs satisfying the hypotheses -/
+
+/-- the sector `(rel_left_az, right_az) = (0, -30)` and azimuth `-10` satisfy the hypotheses of the azimuth
+warp theorems -/
+example : mapLinearToAz (0:ℝ) (-30) (mapAzToLinear 0 (-30) (-10)) = -10 :=
+  az_warp_left_inv 0 (-30) (-10) (by norm_num) (by norm_num [abs_lt]) (by norm_num [abs_lt])
+
+/-- the widest sector `(250, 110)` (half-width 70°) and `p = 1/4` -/
+example : mapAzToLinear (250:ℝ) 110 (mapLinearToAz 250 110 (1/4)) = 1/4 :=
+  az_warp_right_inv 250 110 (1/4) (by norm_num) (by norm_num [abs_lt]) (by norm_num) (by norm_num)
+
+/-- elevation 60, distance 1/2 (high regime) and elevation -10 (low regime) with the regenerated constants -/
+example : elToPolar (RP 8) (elToCart (RP 8) 60 (1/2)).1 (elToCart (RP 8) 60 (1/2)).2 = (60, 1/2) :=
+  el_warp_inv_table 8 60 (1/2) (by norm_num) (by norm_num [abs_lt])
+
+example : elToPolar (RP 8) (elToCart (RP 8) (-10) 1).1 (elToCart (RP 8) (-10) 1).2 = (-10, 1) :=
+  el_warp_inv_table 8 (-10) 1 (by norm_num) (by norm_num [abs_lt])
+
+/-- one `+= 360` step -/
+theorem relativeAngle_up (n : Nat) (x y : ℝ) (h1 : x - 360 ≤ y) (h2 : y < x) :
+    relativeAngle (n + 1) x y = y + 360 := by
+  unfold relativeAngle
+  rw [downGe_id x y (n + 1) (by linarith), upLt_succ, if_pos h2, upLt_id x (y + 360) n (by linarith)]
+
+/-- sector 0 of the reference table: left row (0, (0,1)), right row (-30, (1,1)) -/
+noncomputable def sector0 : Sector ℝ := ⟨0, ⟨0, 0, 1, 0⟩, ⟨-30, 1, 1, 0⟩⟩
+
+/-- Non-vacuity of `polar_cart_polar_in_sector_partial`: az = -10, el = 20, d = 1 in sector 0 of the table. -/
+example :
+    cartToPolarIn (RP 8) sector0 (polarToCartIn (RP 8) sector0 (-10) 20 1).1
+        (polarToCartIn (RP 8) sector0 (-10) 20 1).2.1 (polarToCartIn (RP 8) sector0 (-10) 20 1).2.2 =
+      (relativeAngle (RP 8).fuel (k (-180)) (relativeAngle (RP 8).fuel sector0.right.az (-10)), 20, 1) := by
+  obtain ⟨h1, h2, h3, -⟩ := RP_consts 8
+  have hL : relativeAngle (RP 8).fuel sector0.right.az sector0.left.az = 0 := by
+    rw [h3]; exact relativeAngle_of_mem 8 (-30) 0 (by norm_num) (by norm_num)
+  have hA : relativeAngle (RP 8).fuel sector0.right.az (-10) = -10 := by
+    rw [h3]; exact relativeAngle_of_mem 8 (-30) (-10) (by norm_num) (by norm_num)
+  apply polar_cart_polar_in_sector_partial (RP 8) (by rw [h1]; norm_num) (by rw [h1]; norm_num)
+    (by rw [h2]; norm_num) (by rw [h2]; norm_num) sector0 (by norm_num [Sector.det, sector0])
+    (-10) 20 1 (by norm_num) (by norm_num [abs_lt])
+  · rw [hL]; norm_num [sector0]
+  · rw [hL]; norm_num [sector0, abs_lt]
+  · rw [hA, hL]; norm_num [sector0, abs_lt]
+
+
+end real
 
 end Earverif.Conv
